@@ -232,8 +232,13 @@ def Spos(rng, shape):
     return s
 
 
-def Kspec(rng, shape, R=2, unit=False, pos=False):
+def Kspec(rng, shape, R=2, unit=False, pos=False, normal=False):
+    """normal: already in normal form – every column is a signed unit vector (norm one in every norm),
+    weights one (so normalize / arrange / fixsigns have nothing to do)."""
     def mat(m):
+        if normal:
+            cols = [rng.randrange(m) for _ in range(R)]
+            return [[1 if cols[r] == i else 0 for r in range(R)] for i in range(m)]
         if pos:
             return [[rng.randint(1, 4) for _ in range(R)] for _ in range(m)]
         return [[rng.choice([-3, -2, -1, 1, 2, 3]) for _ in range(R)] for _ in range(m)]
@@ -385,7 +390,7 @@ def under(name, path):
     return path == "" or name == path or name.startswith(path + ".")
 
 
-def poke(obj):
+def poke(obj, val=7.5):
     """Change one entry of a pyttb object through its OWN public `__setitem__` (for a sparse object
     this rebinds its arrays, so it is visible through another name of the same object even when no
     array has a cell to share – the tensor without nonzeros).  False when there is nothing to write."""
@@ -397,7 +402,7 @@ def poke(obj):
             key = tuple([0] * len(shape)) if len(shape) > 1 else 0
             with warnings.catch_warnings():
                 warnings.simplefilter("ignore")
-                obj[key] = 7.5  # never a value of the generated data (small integers)
+                obj[key] = val  # never a value of the generated data (small integers)
             return True
         if isinstance(obj, (ttb.tenmat, ttb.sptenmat)):
             shape = tuple(int(d) for d in obj.shape)
@@ -405,7 +410,7 @@ def poke(obj):
                 return False
             if isinstance(obj, ttb.tenmat) and not np.issubdtype(obj.data.dtype, np.floating):
                 return False
-            obj[0, 0] = 7.5
+            obj[0, 0] = val
             return True
     except Exception:  # noqa: BLE001
         return False
@@ -576,7 +581,7 @@ def observe(c):
                     vo.add(("r", rp, n))
         for op, oo in oobjs:
             cur = result_snaps()
-            if poke(oo):
+            if poke(oo, 8.5):
                 for n in changed(cur, result_snaps()):
                     vo.add(("o", n, op))
         obs["visible_obj"] = sorted(vo)
@@ -1168,11 +1173,12 @@ def ktensor_cases(rng, tier):
         out.append(case(C, "from_vector", "row", None, [arr([1, tot], list(range(1, tot + 1))), py(shape), py(False)], {}, COMP, "static"))
         out.append(case(C, "from_function", "", None, [fn("ones"), py(shape), py(2)], {}, COMP, "static"))
     shapes = K_SHAPES if tier == "quick" else K_SHAPES + [[2, 1, 3], [2, 2, 2, 2]] + [gen.shape(rng, 1, 4, 4) for _ in range(8)]
-    for shape in shapes:
+    for si, shape in enumerate(shapes):
         n = len(shape)
-        for unit in (False, True):
-            X = Kspec(rng, shape, 2, unit)
-            lab = "unit" if unit else "w"
+        # weighted, unit weights, and ALREADY in normal form (unit columns, unit weights, sorted)
+        for lab in (("w", "unit", "normal") if (si < 2 or tier == "thorough") else ("w", "unit")):
+            unit = lab != "w"
+            X = Kspec(rng, shape, 2, unit, normal=(lab == "normal"))
             for m in ("copy", "__pos__"):
                 out.append(case(C, m, lab, X, [], {}, M(C, "copy", n=n)))
             out.append(case(C, "__deepcopy__", lab, X, [py({})], {}, M(C, "copy", n=n)))
@@ -1203,6 +1209,8 @@ def ktensor_cases(rng, tier):
                                 M(C, "permute", n=n, perm=p)))
             # ttv
             out.append(case(C, "ttv", f"{lab}/all", X, [lst([vec(rng, d) for d in shape])], {}, M(C, "ttv", n=n, flag="scalar")))
+            for sl_, a, kw in empty_selections(n, [vec(rng, d) for d in shape]):  # NO mode: every factor matrix remains
+                out.append(case(C, "ttv", f"{lab}/{sl_}", X, a, kw, M(C, "ttv", n=n, dims=list(range(n)))))
             if n >= 2:
                 for ds in mode_subsets(rng, n, tier):
                     rem = [k for k in range(n) if k not in ds]
@@ -1277,6 +1285,29 @@ def ktensor_cases(rng, tier):
     X = Kspec(rng, [3, 3, 3], 2)
     out.append(case(C, "symmetrize", "", X))
     out.append(case(C, "issymmetric", "cubic", X))
+    # already symmetric (all factor matrices equal): nothing to symmetrize
+    f = [[rng.choice([-2, -1, 1, 2, 3]) for _ in range(2)] for _ in range(3)]
+    XS = {"t": "ktensor", "weights": [2, 3], "factors": [f, f, f]}
+    out.append(case(C, "symmetrize", "already-symmetric", XS))
+    out.append(case(C, "issymmetric", "already-symmetric", XS))
+    out.append(case(C, "issymmetric", "already-symmetric/diffs", XS, [py(True)]))
+    # a single component (lists / index arrays of one element)
+    for shape in ([3, 2], [2, 1, 3]):
+        n = len(shape)
+        X1 = Kspec(rng, shape, 1)
+        for m in ("copy", "__pos__"):
+            out.append(case(C, m, "R1", X1, [], {}, M(C, "copy", n=n)))
+        out.append(case(C, "full", "R1", X1, [], {}, M(C, "full", shape=shape)))
+        out.append(case(C, "double", "R1", X1, [], {}, M(C, "double", n=n, shape=shape)))
+        out.append(case(C, "tolist", "R1", X1, [], {}, M(C, "tolist", n=n, flag="")))
+        out.append(case(C, "tovec", "R1", X1, [], {}, M(C, "tovec", n=n)))
+        out.append(case(C, "extract", "R1/only", X1, [iarr([0])], {}, M(C, "extract", n=n)))
+        out.append(case(C, "extract", "R1/int", X1, [py(0)], {}, M(C, "extract", n=n)))
+        out.append(case(C, "permute", "R1/id", X1, [iarr(list(range(n)))], {}, M(C, "permute", n=n, perm=list(range(n)))))
+        out.append(case(C, "ttv", "R1/one", X1, [lst([vec(rng, shape[0])]), iarr([0])], {}, M(C, "ttv", n=n, dims=list(range(1, n)))))
+        out.append(case(C, "__add__", "R1", X1, [Kspec(rng, shape, 1)], {}, M(C, "addsub", n=n)))
+        out.append(case(C, "arrange", "R1/perm", X1, [], {"permutation": iarr([0])}, M(C, "arrange", n=n, flag="perm"), "inplace"))
+        out.append(case(C, "normalize", "R1", X1, [], {}, M(C, "normalize", n=n, flag=""), "inplace"))
     return out
 
 
@@ -1347,6 +1378,19 @@ def ttensor_cases(rng, tier):
                                 ttv_model(range(1, n))))
             for ds in mode_subsets(rng, n, tier):
                 out.append(case(C, "ttv", f"{cl}/dims{len(ds)}", X, [lst([vec(rng, shape[k]) for k in ds]), iarr(ds)], {}, ttv_model(ds)))
+            # NO mode selected: the core goes through `core.ttv([], [])`, every factor matrix remains
+            for sl_, a, kw in empty_selections(n, [vec(rng, d) for d in shape]):
+                out.append(case(C, "ttv", f"{cl}/{sl_}", X, a, kw, ttv_model([])))
+            for sl_, a, kw in empty_selections(n, [mat(rng, 2, d) for d in shape]):
+                out.append(case(C, "ttm", f"{cl}/{sl_}", X, a, kw, P("ttm", dims=[], perm=[])))
+            out.append(case(C, "ttm", f"{cl}/list-one", X, [lst([mat(rng, 2, shape[n - 1])]), iarr([n - 1])], {},
+                            P("ttm", dims=[n - 1], perm=[b0])))
+            out.append(case(C, "ttm", f"{cl}/identity-matrix", X,
+                            [arr([shape[0], shape[0]], [1 if i == j else 0 for j in range(shape[0]) for i in range(shape[0])]), py(0)],
+                            {}, P("ttm", dims=[0], perm=[b0])))
+            out.append(case(C, "__mul__", f"{cl}/scalar-identity", X, [py(1.0)], {}, P("scale", flag="mul")))
+            out.append(case(C, "reconstruct", f"{cl}/identity-samples", X, [iarr(list(range(shape[0]))), py(0)], {},
+                            P("reconstruct", dims=[1] + [0] * (n - 1), perm=[b0] + [0] * (n - 1))))
             for k in range(n):
                 out.append(case(C, "ttm", f"{cl}/mode{k}", X, [mat(rng, 2, shape[k]), py(k)], {}, P("ttm", dims=[k], perm=[b0])))
                 out.append(case(C, "mttkrp", f"{cl}/list/{k}", X, [lst([mat(rng, d, 2) for d in shape]), py(k)], {}, P("mttkrp", dims=[k])))
@@ -1388,13 +1432,14 @@ def sumtensor_cases(rng, tier):
     out = []
     C = "sumtensor"
     configs = [([2, 3, 4], "TSKU"), ([3, 2], "TSKU"), ([3, 2], "K"), ([2, 3], "ST"), ([3, 1, 2], "VTK"), ([2, 2], "TT"),
-               ([2, 3], "T"), ([1, 3], "U")]
+               ([2, 3], "T"), ([1, 3], "U"), ([2, 3], "EK"), ([3, 2], "ZE"), ([2, 2], "E")]  # E / Z: parts without nonzeros
     if tier == "thorough":
         configs += [([2, 3, 2], "UVSKT"), ([4], "KT"), ([2, 1, 2], "S"), ([3, 2], "VU"), ([2, 2, 2], "KKT")]
 
     def mk(ch, shape):
         cs = [min(2, d) for d in shape]
         return {"T": lambda: Tspec(rng, shape), "S": lambda: Sspec(rng, shape), "K": lambda: Kspec(rng, shape),
+                "E": lambda: Sspec(rng, shape, "empty"), "Z": lambda: Tzero(shape),
                 "U": lambda: TTspec(rng, shape, cs), "V": lambda: TTsp(rng, shape, cs)}[ch]()
 
     for shape, letters in configs:
@@ -1422,7 +1467,7 @@ def sumtensor_cases(rng, tier):
             out.append(case(C, m, lb, X, [], {}, RO))
         for m in ("ndims", "order", "shape"):
             out.append(case(C, m, lb, X, kind="prop"))
-        for ch in "TSKUV":
+        for ch in "TSKUVEZ":
             o = mk(ch, shape)
             out.append(case(C, "__add__", f"{lb}+{ch}", X, [o], {}, P("copy", kinds=kinds + [kind_of(o)])))
             out.append(case(C, "__radd__", f"{ch}+{lb}", X, [o], {}, P("copy", kinds=kinds + [kind_of(o)])))
@@ -1443,6 +1488,8 @@ def sumtensor_cases(rng, tier):
 
         out.append(case(C, "ttv", f"{lb}/one", X, [vec(rng, shape[0]), py(0)], {}, ttv_model([0])))
         out.append(case(C, "ttv", f"{lb}/all", X, [lst([vec(rng, d) for d in shape])], {}, ttv_model(range(n))))
+        for sl_, a, kw in empty_selections(n, [vec(rng, d) for d in shape]):  # NO mode selected: `part.ttv([], [])` per part
+            out.append(case(C, "ttv", f"{lb}/{sl_}", X, a, kw, ttv_model([])))
         if n >= 2:
             for ds in mode_subsets(rng, n, tier):
                 out.append(case(C, "ttv", f"{lb}/dims{len(ds)}", X, [lst([vec(rng, shape[k]) for k in ds]), iarr(ds)], {},
@@ -1521,6 +1568,9 @@ def tenmat_cases(rng, tier):
                     out.append(case(C, m, f"{lb}/scalar", XR, [py(2.0)], {}, M(C, "arith", shape=[r, c])))
                 for m in ("__mul__", "__rmul__"):
                     out.append(case(C, m, f"{lb}/scalar", XR, [py(2.0)], {}, M(C, "arith", shape=[r, c])))
+                    out.append(case(C, m, f"{lb}/scalar-identity", XR, [py(1.0)], {}, M(C, "arith", shape=[r, c])))
+                for m in ("__add__", "__sub__", "__radd__"):
+                    out.append(case(C, m, f"{lb}/scalar-identity", XR, [py(0.0)], {}, M(C, "arith", shape=[r, c])))
                 # product with the matricization that swaps rows and columns
                 ZR = {"t": "tenmat_raw", "data": arr([c, r], _mat_data(rng, c, r, dt), dt, "F"),
                       "rdims": cd, "cdims": rd, "tshape": shape}
@@ -1693,9 +1743,42 @@ def utils_cases(rng, tier):
     out.append(case("func", "tenrand", "", None, [py((2, 3))]))
     out.append(case("func", "teneye", "", None, [py(2), py(2)]))
     out.append(case("func", "sptenrand", "", None, [py((3, 4))], {"nonzeros": py(3)}))
-    out.append(case("func", "khatrirao", "two", None, [mat(rng, 2, 3), mat(rng, 4, 3, "C")]))
-    out.append(case("func", "khatrirao", "reverse", None, [mat(rng, 2, 2), mat(rng, 3, 2), mat(rng, 2, 2)], {"reverse": py(True)}))
-    out.append(case("func", "khatrirao", "one", None, [mat(rng, 2, 3)]))
+    # khatrirao: a SINGLE matrix (nothing to multiply: the result carries the argument's entries) in every layout
+    # and shape (1-row / 1-column / 1x1 included), with and without `reverse`; then two and three matrices
+    KR = lambda n, r, c: M("func", "khatrirao", n=n, shape=[r, c])  # noqa: E731
+    for r, c in ([2, 3], [3, 2], [1, 3], [3, 1], [1, 1]):
+        for lay in ("F", "C", "S"):
+            for rev in (False, True):
+                out.append(case("func", "khatrirao", f"one/{lay}/reverse={rev}", None, [mat(rng, r, c, lay)],
+                                {"reverse": py(rev)} if rev else {}, KR(1, r, c)))
+    for lays in (("F", "C"), ("C", "S"), ("S", "F")):
+        out.append(case("func", "khatrirao", "two/" + "".join(lays), None, [mat(rng, 2, 3, lays[0]), mat(rng, 4, 3, lays[1])], {}, KR(2, 8, 3)))
+    out.append(case("func", "khatrirao", "two/1x1", None, [mat(rng, 1, 1), mat(rng, 1, 1, "C")], {}, KR(2, 1, 1)))
+    out.append(case("func", "khatrirao", "two/one-row-each", None, [mat(rng, 1, 3), mat(rng, 1, 3)], {}, KR(2, 1, 3)))
+    out.append(case("func", "khatrirao", "three/reverse", None, [mat(rng, 2, 2), mat(rng, 3, 2), mat(rng, 2, 2)], {"reverse": py(True)},
+                    KR(3, 12, 2)))
+    out.append(case("func", "khatrirao", "list-rejected", None, [lst([mat(rng, 2, 3), mat(rng, 4, 3)])]))
+    # helpers on degenerate arguments: empty / identical row sets, an identity renumbering, empty mode selections
+    E = arr([0, 2], [], "i", "C")
+    for m in ("tt_union_rows", "tt_setdiff_rows", "tt_intersect_rows", "tt_ismember_rows"):
+        out.append(case("utils", m, "second-empty", None, [A, E]))
+        out.append(case("utils", m, "first-empty", None, [E, A]))
+        out.append(case("utils", m, "identical", None, [A, A]))
+        out.append(case("utils", m, "single-row", None, [arr([1, 2], [1, 2], "i", "C"), B]))
+    out.append(case("utils", "tt_renumber", "identity", None, [rows([[0, 1], [1, 2]]), py((2, 3)), lst([sl(None, None), sl(None, None)])]))
+    out.append(case("utils", "tt_renumber", "empty-subs", None, [E, py((2, 3)), lst([sl(None, None), py([1, 2])])]))
+    out.append(case("utils", "tt_dimscheck", "dims-empty", None, [py(3)], {"dims": iarr([])}))
+    out.append(case("utils", "tt_dimscheck", "exclude-all", None, [py(3), py(0)], {"exclude_dims": iarr([0, 1, 2])}))
+    out.append(case("utils", "tt_dimscheck", "dims-all-sorted", None, [py(3), py(3)], {"dims": iarr([0, 1, 2])}))
+    out.append(case("utils", "tt_sub2ind", "empty", None, [py((2, 3)), E]))
+    out.append(case("utils", "tt_sub2ind", "single-row", None, [py((2, 3)), arr([1, 2], [1, 2], "i", "C")]))
+    out.append(case("utils", "parse_one_d", "single", None, [iarr([2])], {}, M("utils", "parse_one_d")))
+    out.append(case("utils", "parse_one_d", "empty", None, [iarr([])], {}, M("utils", "parse_one_d")))
+    out.append(case("utils", "to_memory_order", "1-row", None, [mat(rng, 1, 3, "C"), py("F")], {}, M("utils", "to_memory_order", copy=False)))
+    out.append(case("utils", "to_memory_order", "1-row-copy", None, [mat(rng, 1, 3, "C"), py("F")], {"copy": py(True)},
+                    M("utils", "to_memory_order", copy=True)))
+    out.append(case("func", "tendiag", "single", None, [farr([4])]))
+    out.append(case("func", "sptendiag", "single", None, [farr([4])]))
     return out
 
 
@@ -1934,6 +2017,7 @@ def judge(c, obs, mod):
     # object level: identity and write-through with the objects' own __setitem__
     okp = exp_share | (seen if spec == "knownAlias" else set())
     rsize = dict(zip(obs["results"], obs.get("rsize", [])))
+    kept = []  # (result object, operand object) identities that a documented no-copy parameter explains
     for rp, op in obs.get("same", []):
         inside = [rn for rn in obs["results"] if under(rn, rp) and rsize.get(rn, 1) > 0]
         explained = spec in ("noCopy", "knownAlias") and all(
@@ -1942,13 +2026,16 @@ def judge(c, obs, mod):
             return Verdict("violation", f"{what}: the returned object {rp or 'result'} IS the operand object {op} "
                                         f"(not a copy): a later in-place change of either is one of the other",
                            obs, mod, None, tags + ["same-object"])
+        kept.append((rp, op))
     for d, a, b in obs.get("visible_obj", []):
         if d == "r":  # wrote through result object a, operand array b changed
             i = names.index(b) if b in names else -1
-            explained = any((rn, i) in okp for rn in obs["results"] if under(rn, a))
+            explained = (any((rn, i) in okp for rn in obs["results"] if under(rn, a))
+                         or any((under(a, rp) or under(rp, a)) and under(b, op) for rp, op in kept))
             msg = f"an in-place write to the returned object {a or 'result'} changes the operand {b}"
         else:         # wrote through operand object b, result array a changed
-            explained = any((a, i) in okp for i in range(len(names)) if under(names[i], b))
+            explained = (any((a, i) in okp for i in range(len(names)) if under(names[i], b))
+                         or any(under(a, rp) and (under(b, op) or under(op, b)) for rp, op in kept))
             msg = f"an in-place write to the operand object {b} changes the returned {a or 'result'}"
         if not explained:
             return Verdict("violation", f"{what}: {msg}", obs, mod, None, tags + ["object-write-through"])
